@@ -16,7 +16,20 @@ use crate::xmlgen;
 use serde_json::json;
 use std::time::Duration;
 
+/// a document whose injected styles depend on the theme and the base font size, set by the document
+fn styled_doc(rng: &mut Rng) -> String {
+    let mut cfg = String::from("<config");
+    if rng.chance(2, 3) { cfg.push_str(&format!(" theme=\"{}\"", rng.pick(&["dark", "light", "bold", "fine", "glass", "default"]))); }
+    if rng.chance(1, 2) { cfg.push_str(&format!(" font-size=\"{}\"", rng.pick(&["2", "6", "4.5", "3"]))); }
+    if rng.chance(1, 4) { cfg.push_str(&format!(" font-family=\"{}\"", rng.pick(&["serif", "monospace"]))); }
+    cfg.push_str("/>");
+    let pat = *rng.pick(&["d-grid", "d-grid-5", "d-hatch", "d-crosshatch-3", "d-stipple", "d-hatch-2"]);
+    let size = *rng.pick(&["d-text-smallest", "d-text-smaller", "d-text-small", "d-text-medium", "d-text-large", "d-text-larger", "d-text-largest"]);
+    format!("<svg>{cfg}<rect wh=\"{} 8\" class=\"{pat} d-fill-red\" text=\"t\"/><rect xy=\"^|h 2\" wh=\"9 4\" class=\"{size} d-shadow\" text=\"u v\"/><line xy1=\"0 20\" xy2=\"20 20\" class=\"d-arrow d-dash\"/></svg>", 6 + rng.below(9))
+}
+
 fn doc(rng: &mut Rng) -> String {
+    if rng.chance(1, 4) { return styled_doc(rng); }
     match rng.below(6) {
         0 | 1 => xmlgen::svgdx_doc(rng, true),
         2 => xmlgen::real_svg_doc(rng),
@@ -72,12 +85,15 @@ fn agree_stream(rep: &mut Report, rng: &mut Rng, n: usize) {
 }
 
 fn isolation_streams(rep: &mut Report, rng: &mut Rng, n: usize) {
-    let mut st = Stream::new("isolation/history", "oracle", "a probe document (random functions, variables, styles) transformed alone, then again after a random sequence of 1-8 other transforms in the same process - succeeding and failing ones, other seeds and limits - through the library and through one server process: the probe's bytes do not change");
+    let mut st = Stream::new("isolation/history", "oracle", "a probe document (random functions, variables, styles; half of them with theme / font-size / pattern / text-size classes set by the document) transformed by a fresh svgdx process, alone, then again after a random sequence of 1-8 other transforms in the same process - succeeding and failing ones, other seeds and limits - through the library and through one server process: the probe's bytes do not change and equal the fresh process's");
     let mut server = Server::start().ok();
     for _ in 0..n {
-        let probe = format!("<svg><var a=\"{{{{randint(0, 99)}}}}\"/><rect xy=\"$a {{{{random()}}}}\" wh=\"4\" class=\"d-fill-blue d-dash\" text=\"$a\"/><loop count=\"3\" loop-var=\"i\"><circle cxy=\"{{{{$i * 5}}}} {{{{randint(1, 9)}}}}\" r=\"1\"/></loop><rect xy=\"^|h {}\" wh=\"2\"/></svg>", rng.below(5));
+        let probe = if rng.chance(1, 2) { styled_doc(rng) } else { format!("<svg><var a=\"{{{{randint(0, 99)}}}}\"/><rect xy=\"$a {{{{random()}}}}\" wh=\"4\" class=\"d-fill-blue d-dash\" text=\"$a\"/><loop count=\"3\" loop-var=\"i\"><circle cxy=\"{{{{$i * 5}}}} {{{{randint(1, 9)}}}}\" r=\"1\"/></loop><rect xy=\"^|h {}\" wh=\"2\"/></svg>", rng.below(5)) };
         let cfg = FCfg { add_metadata: rng.chance(1, 3), ..Default::default() };
         st.case(&probe, true, || json!({"probe": probe}));
+        // the reference comes from a fresh process: what is remembered from the first transform of a
+        // process would otherwise be part of "alone" as well
+        let fresh = svgdx_bin().map(|bin| via_cli(&bin, &std::path::PathBuf::from("/verif/.build/tmp"), &format!("c07-probe-{}", std::process::id()), probe.as_bytes(), &cfg, CliMode::StdinToStdout, None, Duration::from_secs(30)).res);
         let alone = via_str(&probe, &cfg);
         let alone_srv = server.as_mut().map(|s| s.transform(probe.as_bytes(), cfg.add_metadata, Duration::from_secs(30)));
         let k = 1 + rng.below(8);
@@ -92,10 +108,14 @@ fn isolation_streams(rep: &mut Report, rng: &mut Rng, n: usize) {
         let after = via_str(&probe, &cfg);
         let mut bad = None;
         if !(matches!((&alone, &after), (Res::Ok(a), Res::Ok(b)) if a == b)) { bad = Some(format!("library: the probe gives {} alone and {} after {k} other transforms (different bytes or outcome)", alone.kind(), after.kind())); }
+        if let (Some(f), true) = (&fresh, bad.is_none()) {
+            if !same(f, &after) { bad = Some(format!("library: after {k} other transforms the probe gives {}, a fresh svgdx process gives {} (different bytes or outcome)", after.kind(), f.kind())); }
+        }
         if let (Some(s), Some(a0)) = (server.as_mut(), alone_srv.as_ref()) {
             let a1 = s.transform(probe.as_bytes(), cfg.add_metadata, Duration::from_secs(30));
             if !(matches!((a0, &a1), (Res::Ok(a), Res::Ok(b)) if a == b)) { bad = Some(format!("server: the probe gives {} alone and {} after {k} other requests", a0.kind(), a1.kind())); }
             if let (Res::Ok(a), Res::Ok(b)) = (&alone, a0) { if a != b { bad = Some("server and library differ on the probe".into()); } }
+            if let Some(f) = &fresh { if !same(f, &a1) && bad.is_none() { bad = Some(format!("server: after {k} other requests the probe gives {}, a fresh svgdx process gives {}", a1.kind(), f.kind())); } }
         }
         match bad {
             None => st.exact += 1,
